@@ -35,6 +35,8 @@ const (
 	kfMixedJoin          = "K10-hash-join-integer-float-never-match"
 	kfNullRange          = "K23-typed-null-join-key-and-float-constant-range"
 	kfGroupNulls         = "K24-group-by-order-by-loses-nulls-first-last"
+	kfOwnIndex           = "K25-update-through-index-it-modifies-after-writes-in-tx"
+	kfLossyCmp           = "K26-integer-float-compare-lossy-vs-exact-hash-join-key"
 )
 
 var tmpOnce sync.Once
@@ -181,6 +183,12 @@ func (e *env) runTx(first, keepOpen, insertOnly bool) *sqlgen.Tx {
 			o.NoScan = true
 			vk.CountExcluded(kfInTxDup)
 		}
+		if e.touched[t.Name] && vk.Excluded(kfOwnIndex) {
+			// known finding K25: an UPDATE that scans an index holding a column it sets, in a
+			// transaction that already wrote to the table, panics or skips rows
+			o.NoOwnIndexScan = true
+			o.OnOwnIndex = func() { vk.CountExcluded(kfOwnIndex) }
+		}
 		before := map[string]bool{}
 		for k := range e.used[t.Name] {
 			before[k] = true
@@ -197,7 +205,16 @@ func (e *env) runTx(first, keepOpen, insertOnly bool) *sqlgen.Tx {
 		e.noteEmpties(s)
 		for _, twin := range []bool{false, true} {
 			text := s.SQL(twin)
-			err := tx.Exec(text, s.Params())
+			var err error
+			func() {
+				defer func() {
+					if r := recover(); r != nil {
+						e.tracef("  %s  -- PANIC %v", text, r)
+						e.c.Failf(e.rt, e.dump(nil), "the engine panicked while executing a statement: %v\n  %s", r, text)
+					}
+				}()
+				err = tx.Exec(text, s.Params())
+			}()
 			e.tracef("  %s  -- %s", text, errStr(err))
 			if err != nil && strings.Contains(err.Error(), "syntax error") {
 				e.c.Failf(e.rt, e.dump(nil), "HARNESS: generated DML does not parse: %v\n  %s", err, text)
